@@ -237,10 +237,13 @@ payload_plausible(RPFrame *f)
     switch (f->header.type) {
     case RP_FRAME_READ_REQUEST:
         /* FALLTHROUGH */
-    case RP_FRAME_WRITE_RESPONSE:
-        /* FALLTHROUGH */
     case RP_FRAME_META:
         return (actualsize == 0) ? 0 : -EFAULT;
+    case RP_FRAME_WRITE_RESPONSE:
+        /* Acknowledgements of writes carry no payload (block size zero), but
+         * the EUNMAPPED, EACCESS, ERANGE, EINVALID and overflow responses to a
+         * write do carry four octets. */
+        /* FALLTHROUGH */
     case RP_FRAME_READ_RESPONSE:
         /* FALLTHROUGH */
     case RP_FRAME_WRITE_REQUEST:
